@@ -236,6 +236,26 @@ def solved(resid, L, bound):
     return a == 0 or b == 0 or (a < 0) != (b < 0) or (a < 0) != (r0 < 0)
 
 
+def classify_stop(resid, L, bound, jumps):
+    """Where the bounded local minimiser of (exp(phi(L))/p - 1)^2 stopped when L is not a solution: at a layer-count
+    'jump', at a search 'bound', at a local 'extremum' of the squared residual - or 'elsewhere' (no minimiser stops there)."""
+    def sq(x):
+        with np.errstate(all="ignore"):
+            try:
+                v = math.expm1(float(resid(np.float64(x))))
+            except (OverflowError, ZeroDivisionError, ValueError):
+                return math.inf
+        return v * v if math.isfinite(v) else math.inf
+    h = 2e-4
+    if any(abs(L - j) <= 2e-4 for j in jumps):
+        return "jump"
+    if L >= 50.0 - 1e-3 or L <= bound + 1e-3:
+        return "bound"
+    if sq(L) <= sq(L - h) and sq(L) <= sq(L + h):
+        return "extremum"
+    return "elsewhere"
+
+
 def witness_near(resid, L_t, bound):
     """A sign change of `resid` near the target (the closure may differ slightly from the typed equation)."""
     for r in (1e-4, 1e-3, 1e-2, 5e-2):
@@ -357,12 +377,16 @@ def assert_solutions(probs, ctx, head, desc, r, pts, source, ads, mat_ref, T):
         ok_cl = solved(res_cl, L_i, bound)
         if not ok_cl:
             if source == "closure" or witness_near(res_cl, L_t, bound):
-                ctx.label("missed_root_at_layer_jump" if any(abs(L_i - j) <= 2e-4 for j in jumps) else "missed_root_elsewhere")
+                # where did the bounded local minimiser stop? (only stops that a local minimiser can legitimately make
+                # belong to the known class of the Rege-Yang models)
+                stop = classify_stop(res_cl, L_i, bound, jumps)
+                ctx.label("missed_root_at_layer_jump" if stop == "jump" else "missed_root_" + stop)
                 resid = math.expm1(res_cl(np.float64(L_i)))
-                probs.add(0 if fam == "hk" else 3,
+                probs.add(0 if fam == "hk" else (3 if stop != "elsewhere" else 0),
                           f"{head}: point {i}: p/p0 = {r['p'][i]!r}: reported L = {L_i!r} nm does not solve the library's own "
-                          f"potential equation (exp(phi(L))/p - 1 = {resid:.3g}) although L = {L_t!r} nm "
-                          f"(W = {rh.mult(geometry) * L_t - mat_ref['molecular_diameter']:.6g} nm) does", f"not_a_solution:{fam}")
+                          f"potential equation (exp(phi(L))/p - 1 = {resid:.3g}; the search stopped at: {stop}) although L = {L_t!r} nm "
+                          f"(W = {rh.mult(geometry) * L_t - mat_ref['molecular_diameter']:.6g} nm) does",
+                          f"not_a_solution:{fam}" + (f":{stop}" if fam == "ry" else ""))
                 ctx.label("solver_missed_root")
             else:
                 ctx.label("no_witness")
@@ -535,6 +559,7 @@ def check_temperature(desc, ctx):
     r = _one_record(rec, head, len(p2), p2)
     f1, f2 = box["f"], r["f"]
     probs = Problems()
+    jumps_t = ry_jumps(geometry, ads, mat_ref, l_max) if fam == "ry" else []
     n_checked = 0
     for i in range(len(r["L"])):
         if plateau2[i]:
@@ -553,9 +578,11 @@ def check_temperature(desc, ctx):
             return float(f2(x)) - c - a
 
         if not solved(res_T2, L2, bound):
-            probs.add(0 if fam == "hk" else 3,
+            stop = classify_stop(res_T2, L2, bound, jumps_t) if fam == "ry" else ""
+            probs.add(0 if (fam == "hk" or stop == "elsewhere") else 3,
                       f"{head}: point {i}: p/p0 = {p2[i]!r}: reported L = {L2!r} nm does not solve the library's own equation "
-                      f"at T' although L = {float(tgt2[i])!r} nm does", f"not_a_solution:{fam}")
+                      f"at T' (the search stopped at: {stop or 'n/a'}) although L = {float(tgt2[i])!r} nm does",
+                      f"not_a_solution:{fam}" + (f":{stop}" if fam == "ry" else ""))
             continue
         probs.add(0, f"{head}: point {i}: L = {L2!r} nm solves the equation at T' = {T2!r} K for p' = {p2[i]!r} but not the "
                      f"equation at T = {T!r} K for p = p'^(T'/T) = {math.exp(lnp_T)!r} (residual in ln p: "
@@ -752,7 +779,10 @@ def kf_ry_not_a_solution(check_name, desc, viol):
     """Rege-Yang potentials are discontinuous (layer count) and non-monotone inside a layer band; the bounded local
     minimiser of (exp(phi(L)) - p)^2 stops at a discontinuity / local extremum (or at the upper bound 50 nm) that is
     not a solution although the equation has one inside the width range."""
-    return viol.tag == "not_a_solution:ry" and str(desc.get("model", "")).startswith("RY")
+    # only stops a local minimiser can legitimately make: at a layer-count jump, at a local extremum of the squared
+    # residual, at a search bound ("not_a_solution:ry:elsewhere" is NOT part of the class)
+    return viol.tag in ("not_a_solution:ry:jump", "not_a_solution:ry:extremum", "not_a_solution:ry:bound") \
+        and str(desc.get("model", "")).startswith("RY")
 
 
 def kf_ry_widths_decrease(check_name, desc, viol):
